@@ -66,7 +66,7 @@ func (q *vQueue) added() []string {
 
 type vEvtPod struct {
 	pod    *v1.Pod
-	owner  int // 0 none, 1 set "web-1" (right UID), 2 set "web-1" with a stale UID, 3 another kind, 4 set "db"
+	owner  int // 0 none, 1 set "web-1" (right UID), 2 set "web-1" with a stale UID, 3 another kind, 4 set "db", 5 set "web-1" referenced through another served API version
 	labels int // 0 none, 1 matches web-1, 2 matches db, 3 matches both
 	term   bool
 }
@@ -74,7 +74,7 @@ type vEvtPod struct {
 func vEvtBuildPod(tag string) *vEvtPod {
 	e := &vEvtPod{}
 	pod := &v1.Pod{ObjectMeta: metav1.ObjectMeta{Name: "web-1-0", Namespace: vNS, UID: "uid-pod", ResourceVersion: "1"}}
-	e.owner = sym.Pick(tag+".owner", 5)
+	e.owner = sym.Pick(tag+".owner", 6)
 	switch e.owner {
 	case 1:
 		pod.OwnerReferences = vOwnerRef(controllerKind.Kind, vSetName, vSetUID)
@@ -84,6 +84,10 @@ func vEvtBuildPod(tag string) *vEvtPod {
 		pod.OwnerReferences = vOwnerRef("ReplicaSet", vSetName, vSetUID)
 	case 4:
 		pod.OwnerReferences = vOwnerRef(controllerKind.Kind, "db", "uid-db")
+	case 5:
+		// the CRD serves v1alpha1 as well: same object, same UID, other apiVersion in the reference
+		pod.OwnerReferences = vOwnerRef(controllerKind.Kind, vSetName, vSetUID)
+		pod.OwnerReferences[0].APIVersion = controllerKind.Group + "/v1alpha1"
 	}
 	e.labels = sym.Pick(tag+".labels", 4)
 	switch e.labels {
@@ -105,7 +109,7 @@ func vEvtBuildPod(tag string) *vEvtPod {
 // ownerKeys: the set a controller reference resolves to.
 func (e *vEvtPod) ownerKeys() []string {
 	switch e.owner {
-	case 1:
+	case 1, 5:
 		return []string{vNS + "/" + vSetName}
 	case 4:
 		return []string{vNS + "/db"}
